@@ -3,6 +3,7 @@
 #include <memory>
 #include "common/robust.hpp"
 #include "common/mc.hpp"
+#include <algorithm>
 #include "common/asmgen.hpp"
 #include "common/listing.hpp"
 #include "adapters/tools.hpp"
@@ -94,7 +95,7 @@ static std::vector<std::string> tokenizeAsm(const std::string &src) {
 }
 
 int main(int argc, char **argv) {
-  ctx = parse_args("C10", argc, argv, 150, 1500);
+  ctx = parse_args("C10", argc, argv, 600, 3600);
   g_out = ctx.scratch + "/c10.out";
   Report rep; rep.ctx = ctx;
   if (!ctx.replayPath.empty()) {
@@ -176,6 +177,8 @@ int main(int argc, char **argv) {
   auto C = std::make_shared<asmgen::Corpus>(); C->build(3, 2, {0, 1, 3, 14, 15, 16, 254, 255}, true);
   fams.push_back({"layout-corpus", [=] { return C->total; }, [=](uint64_t i, std::string *) { return asmgen::render(C->make(i)); }, 64});
 
+  // smallest families first: the hand lists and size sweeps are never the ones a deadline cuts off
+  std::stable_sort(fams.begin(), fams.end(), [](const Fam &a, const Fam &b) { return a.count() < b.count(); });
   for (auto &f : fams) {
     if (ctx.expired()) { rep.caps.push_back("family " + f.name + " not started (deadline)"); continue; }
     uint64_t n = f.count();
